@@ -344,8 +344,9 @@ StunValidationStatus stun_agent_validate (StunAgent *agent, StunMessage *msg,
 
   if (agent->usage_flags & STUN_AGENT_USAGE_CONSENT_FRESHNESS &&
       stun_message_get_class (msg) == STUN_ERROR) {
-    stun_message_find_error (msg, &error_code);
-    if (error_code == STUN_ERROR_FORBIDDEN) {
+    if (stun_message_find_error (msg, &error_code) ==
+            STUN_MESSAGE_RETURN_SUCCESS &&
+        error_code == STUN_ERROR_FORBIDDEN) {
       return STUN_VALIDATION_FORBIDDEN;
     }
   }
